@@ -1,16 +1,307 @@
-// C15 harness, part 2: fitted models (linear, gradient boosting) and weak learners -- see c15_stream.cpp
+// C15 harness, part 2: fitted models (linear, gradient boosting) and weak learners -- see c15_stream.cpp.
+// A small synthetic dataset (categorical, multi-label and continuous inputs with missing values, scalar target) is
+// generated from VERIF_SEED; every weak learner type is fitted on the loss gradients, linear models and gradient
+// boosting models are fitted with randomly chosen configurations. Each fitted object is serialised, re-read, and the
+// re-read object must (a) re-serialise to the same bytes and (b) predict BIT-IDENTICAL outputs (direct oracle).
 #pragma once
 #include "common.h"
 #include <functional>
+#include <nano/dataset.h>
+#include <nano/dataset/iterator.h>
+#include <nano/datasource.h>
+#include <nano/gboost/model.h>
+#include <nano/generator/elemwise_identity.h>
+#include <nano/linear.h>
+#include <nano/loss.h>
+#include <nano/machine/params.h>
+#include <nano/wlearner/affine.h>
+#include <nano/wlearner/dtree.h>
+#include <nano/wlearner/hinge.h>
+#include <nano/wlearner/stump.h>
+#include <nano/wlearner/table.h>
+#include <sstream>
 #include <string>
 
 namespace c15
 {
+using namespace nano;
+
 using reader_t  = std::function<char(const std::string&, std::string*)>;
 using process_t = std::function<void(const std::string&, const std::string&, const reader_t&, const std::string&)>;
 using fail_t    = std::function<void(const std::string&)>;
 
-inline void all_models(vh::rng_t&, bool, const process_t&, const fail_t&)
+class datasource_c15_t final : public datasource_t
 {
+public:
+    datasource_c15_t(const tensor_size_t samples, const uint64_t seed)
+        : datasource_t("c15")
+        , m_samples(samples)
+        , m_seed(seed)
+    {
+    }
+
+    rdatasource_t clone() const override { return std::make_unique<datasource_c15_t>(*this); }
+
+private:
+    void do_load() override
+    {
+        const auto features = features_t{
+            feature_t{"s0"}.sclass(strings_t{"a", "b", "c"}),
+            feature_t{"s1"}.sclass(strings_t{"x", "y"}),
+            feature_t{"m0"}.mclass(strings_t{"m0", "m1", "m2"}),
+            feature_t{"x0"}.scalar(feature_type::float64),
+            feature_t{"x1"}.scalar(feature_type::float32),
+            feature_t{"x2"}.scalar(feature_type::float64),
+            feature_t{"y"}.scalar(feature_type::float64),
+        };
+        resize(m_samples, features, 6U);
+
+        vh::rng_t    rng(m_seed);
+        const double table[3] = {+0.5, -0.3, +0.9};
+        for (tensor_size_t sample = 0; sample < m_samples; ++sample)
+        {
+            const auto s0 = rng.range(0, 2), s1 = rng.range(0, 1);
+            const auto x0 = 2.0 * rng.unit() - 1.0, x1 = 3.0 * rng.unit() - 1.5, x2 = rng.unit();
+            tensor_mem_t<int8_t, 1> m(3);
+            for (tensor_size_t k = 0; k < 3; ++k) m(k) = static_cast<int8_t>(rng.range(0, 1));
+
+            // optional inputs are missing with probability ~8% each
+            if (rng.range(0, 11) != 0) set(sample, 0, s0);
+            if (rng.range(0, 11) != 0) set(sample, 1, s1);
+            if (rng.range(0, 11) != 0) set(sample, 2, m);
+            if (rng.range(0, 11) != 0) set(sample, 3, x0);
+            if (rng.range(0, 11) != 0) set(sample, 4, x1);
+            if (rng.range(0, 11) != 0) set(sample, 5, x2);
+
+            const auto target = 0.7 * x0 - 0.3 * x1 + (x2 < 0.2 ? 1.5 : -0.5) + table[s0] + (s1 != 0 ? 0.4 : -0.4) +
+                                (m(1) != 0 ? 0.25 : 0.0);
+            set(sample, 6, target);
+        }
+    }
+
+    tensor_size_t m_samples{0};
+    uint64_t      m_seed{0};
+};
+
+inline dataset_t make_dataset(const datasource_t& datasource)
+{
+    auto dataset = dataset_t{datasource};
+    dataset.add<sclass_identity_generator_t>();
+    dataset.add<mclass_identity_generator_t>();
+    dataset.add<scalar_identity_generator_t>();
+    dataset.add<struct_identity_generator_t>();
+    return dataset;
+}
+
+inline tensor4d_t make_residuals(const dataset_t& dataset, const loss_t& loss)
+{
+    const auto samples  = arange(0, dataset.samples());
+    const auto iterator = targets_iterator_t{dataset, samples};
+    tensor4d_t targets(cat_dims(dataset.samples(), dataset.target_dims()));
+    iterator.loop([&](const tensor_range_t range, size_t, tensor4d_cmap_t _targets) { targets.slice(range) = _targets; });
+    tensor4d_t outputs(targets.dims());
+    outputs.zero();
+    tensor4d_t residuals(targets.dims());
+    loss.vgrad(targets, outputs, residuals);
+    return residuals;
+}
+
+inline bool same_bits(const tensor4d_t& a, const tensor4d_t& b)
+{
+    return a.dims() == b.dims() &&
+           (a.size() == 0 || std::memcmp(a.data(), b.data(), sizeof(scalar_t) * static_cast<size_t>(a.size())) == 0);
+}
+
+template <class tobject>
+std::string to_bytes(const tobject& object)
+{
+    std::ostringstream out;
+    ::nano::write(out, object);
+    return out.str();
+}
+
+// a weak learner serialised WITHOUT the factory type id (the read()/write() members alone)
+struct bare_wlearner_t
+{
+    rwlearner_t m_ptr;
+
+    std::ostream&     write(std::ostream& stream) const { return m_ptr->write(stream); }
+    std::istream&     read(std::istream& stream) { return m_ptr->read(stream); }
+    const wlearner_t& operator*() const { return *m_ptr; }
+};
+
+inline int wlearner_kind(const wlearner_t& wlearner)
+{
+    if (dynamic_cast<const affine_wlearner_t*>(&wlearner) != nullptr) return 0;
+    if (dynamic_cast<const stump_wlearner_t*>(&wlearner) != nullptr) return 1;
+    if (dynamic_cast<const hinge_wlearner_t*>(&wlearner) != nullptr) return 2;
+    if (dynamic_cast<const table_wlearner_t*>(&wlearner) != nullptr) return 3;
+    if (dynamic_cast<const dtree_wlearner_t*>(&wlearner) != nullptr) return 4;
+    return 9;
+}
+
+// generic: serialise `object`, re-read it with `rd_obj` into a fresh object, compare predictions bit for bit
+template <class tobject, class tmake>
+void check_model(const std::string& spec, const tobject& object, const tmake& make, const dataset_t& dataset,
+                 const std::string& info, const process_t& process, const fail_t& fail)
+{
+    const auto bytes   = to_bytes(object);
+    const auto samples = arange(0, dataset.samples());
+    try
+    {
+        auto               other = make();
+        std::istringstream stream(bytes);
+        if (!::nano::read(stream, other))
+        {
+            fail("ROUNDTRIP " + spec + " valid stream rejected (" + info + ")");
+        }
+        else
+        {
+            const auto& a = [&]() -> const auto&
+            {
+                if constexpr (std::is_base_of_v<learner_t, tobject>) return object; else return *object;
+            }();
+            const auto& b = [&]() -> const auto&
+            {
+                if constexpr (std::is_base_of_v<learner_t, tobject>) return other; else return *other;
+            }();
+            bool fitted = true;
+            tensor4d_t pa, pb;
+            try { pa = a.predict(dataset, samples); } catch (const std::exception&) { fitted = false; }
+            if (fitted)
+            {
+                pb = b.predict(dataset, samples);
+                if (!same_bits(pa, pb))
+                {
+                    fail("PREDICT " + spec + " predictions of the re-read object are not bit-identical (" + info + ")");
+                }
+            }
+            if (a.parameters() != b.parameters())
+            {
+                fail("ROUNDTRIP " + spec + " parameters of the re-read object differ (" + info + ")");
+            }
+        }
+    }
+    catch (const std::exception& e)
+    {
+        fail("ROUNDTRIP " + spec + " exception while re-reading a valid stream: " + e.what());
+    }
+
+    process(spec, bytes,
+            [make](const std::string& data, std::string* reser) -> char
+            {
+                try
+                {
+                    auto               other = make();
+                    std::istringstream stream(data);
+                    if (!::nano::read(stream, other)) return 'R';
+                    if (reser != nullptr) *reser = to_bytes(other);
+                    return 'A';
+                }
+                catch (const std::exception&)
+                {
+                    return 'X';
+                }
+            },
+            info);
+}
+
+inline void all_models(vh::rng_t& rng, const bool thorough, const process_t& process, const fail_t& fail)
+{
+    // the table of weak learner ids -> wire format kind, for the model
+    {
+        std::string line;
+        for (const auto& id : wlearner_t::all().ids())
+        {
+            const auto proto = wlearner_t::all().get(id);
+            line += (line.empty() ? "" : ",") + id + ":" + std::to_string(wlearner_kind(*proto));
+        }
+        std::printf("WLIDS %s\n", line.c_str());
+        std::string lids;
+        for (const auto& id : linear_t::all().ids()) lids += (lids.empty() ? "" : ",") + id;
+        std::printf("IDS linear %s\n", lids.c_str());
+    }
+
+    const int datasets = thorough ? 3 : 1;
+    for (int idata = 0; idata < datasets; ++idata)
+    {
+        auto datasource = datasource_c15_t{thorough ? 120 : 80, rng.next()};
+        datasource.load();
+        const auto dataset = make_dataset(datasource);
+        const auto samples = arange(0, dataset.samples());
+        const auto loss    = loss_t::all().get(rng.range(0, 1) == 0 ? "mse" : "cauchy");
+
+        // every weak learner type, fitted on the gradients of the loss at zero outputs
+        const auto residuals = make_residuals(dataset, *loss);
+        for (const auto& id : wlearner_t::all().ids())
+        {
+            auto wlearner = wlearner_t::all().get(id);
+            // random valid parameters (keeps defaults where sampling leaves the domain)
+            for (const auto& cparam : wlearner->parameters())
+            {
+                if (const auto* p = std::get_if<parameter_t::irange_t>(&cparam.storage()))
+                {
+                    try { wlearner->parameter(cparam.name()) = rng.range(p->m_min, std::min(p->m_max, p->m_min + 8)); }
+                    catch (const std::exception&) {}
+                }
+            }
+            scalar_t score = 0.0;
+            try { score = wlearner->fit(dataset, samples, residuals); }
+            catch (const std::exception& e) { fail("FIT wlearner " + id + " threw: " + e.what()); continue; }
+            const auto kind = wlearner_kind(*wlearner);
+            std::ostringstream info;
+            info << "id=" << id << ";score=" << vh::hexf(score);
+            // through the factory overload (type id + object) ...
+            check_model("object:wlearner", wlearner, [] { return rwlearner_t{}; }, dataset, info.str(), process, fail);
+            // ... and the object alone, read into a default-constructed instance of the same type
+            check_model("wlearner:" + std::to_string(kind), bare_wlearner_t{wlearner->clone()},
+                        [id] { return bare_wlearner_t{wlearner_t::all().get(id)}; }, dataset, info.str(), process, fail);
+        }
+
+        // linear models
+        const auto lids = linear_t::all().ids();
+        for (size_t i = 0; i < lids.size(); ++i)
+        {
+            if (!thorough && i != static_cast<size_t>(rng.range(0, static_cast<int64_t>(lids.size()) - 1)) && i != 0) continue;
+            auto model = linear_t::all().get(lids[i]);
+            model->parameter("linear::batch") = rng.range(10, 200);
+            auto params = ml::params_t{};
+            auto splitter = splitter_t::all().get("k-fold");
+            splitter->parameter("splitter::folds") = 2;
+            params.splitter(splitter);
+            try { model->fit(dataset, samples, *loss, params); }
+            catch (const std::exception& e) { fail("FIT linear " + lids[i] + " threw: " + e.what()); continue; }
+            std::ostringstream info;
+            info << "id=" << lids[i] << ";bias=" << model->bias().size() << ";weights=" << model->weights().rows() << "x" << model->weights().cols();
+            check_model("object:linear", model, [] { return rlinear_t{}; }, dataset, info.str(), process, fail);
+        }
+
+        // gradient boosting with a random subset of prototypes and a random configuration
+        const int gmodels = thorough ? 3 : 1;
+        for (int g = 0; g < gmodels; ++g)
+        {
+            auto model = gboost_model_t{};
+            model.parameter("gboost::max_rounds") = rng.range(10, thorough ? 30 : 12);
+            model.parameter("gboost::epsilon")    = 1e-6;
+            model.parameter("gboost::patience")   = rng.range(1, 3);
+            model.parameter("gboost::seed")       = rng.range(0, 1024);
+            auto prototypes = rwlearners_t{};
+            const auto wids = wlearner_t::all().ids();
+            for (const auto& id : wids)
+            {
+                if (id == "affine" || rng.range(0, thorough ? 1 : 2) == 0) prototypes.emplace_back(wlearner_t::all().get(id));
+            }
+            model.prototypes(std::move(prototypes));
+            auto params   = ml::params_t{};
+            auto splitter = splitter_t::all().get("k-fold");
+            splitter->parameter("splitter::folds") = 2;
+            params.splitter(splitter);
+            try { model.fit(dataset, samples, *loss, params); }
+            catch (const std::exception& e) { fail(std::string("FIT gboost threw: ") + e.what()); continue; }
+            std::ostringstream info;
+            info << "wlearners=" << model.wlearners().size() << ";bias=" << model.bias().size();
+            check_model("gboost", model, [] { return gboost_model_t{}; }, dataset, info.str(), process, fail);
+        }
+    }
 }
 } // namespace c15
